@@ -4,15 +4,18 @@ import copy
 
 from ..prng import Rng
 from ..seams import CLOCK, F, T, reset_world, HarnessError
+from ..seams import LIB_ERRORS
 from ..core import real
 from ..oracle import (ACCEPT, REJECT, EITHER, slack3, slack_tripped_int, and3,
                       verdict3, validsig, sha256, shake256, pubkey_of_seed,
                       bool_of, base_mult, point_add)
 
 PID = 'C15'
-ISOLATE = False
+ISOLATE = True      # one forked process per run: nothing a run does to process-global
+                    # state can reach another run, so every run replays on its own
 RUNS = {'quick': 9000, 'thorough': 160000}
 STEP_KEYS = ['steps']
+BATCH = 8           # runs per forked process (see core.execute_seq)
 COMPONENTS = {
     'real': ['make_htlc_sha256_lock', 'make_htlc_shake256_lock', 'make_htlc_witness',
              'make_htlc2_sha256_lock', 'make_htlc2_shake256_lock', 'make_htlc2_witness',
@@ -110,7 +113,10 @@ def gen_step(rng, cell, oid, out, clocks, vname, thr, fault_free):
     flags = sorted({'00', out['allowed'], '01', '02'})
     step = {'at_us': at, 'validator': vname, 'out': oid, 'actor': ac, 'wkind': wk,
             'pre': pr, 't': t, 'flag': rng.choice(['00', '00', out['allowed'], rng.choice(flags)]),
-            'faults': [], 'corrupt': None, 'thr': thr}
+            'faults': [], 'corrupt': None, 'thr': thr,
+            # how the verifier supplies its slack threshold: the global flags with
+            # run_auth_scripts, or per call (run_script additional_flags)
+            'via': rng.choice(['global', 'global', 'additional'])}
     if not fault_free:
         r = rng.below(10)
         if r == 0:
@@ -130,7 +136,8 @@ def gen_step(rng, cell, oid, out, clocks, vname, thr, fault_free):
 def gen_plan(run_seed, idx, tier):
     rng = Rng(run_seed)
     fault_free = (idx % 4 == 3)
-    ep = rng.choice([1000, 70000, 1_700_000_000, 2 ** 31 - 100000, 2 ** 32 + 5])
+    ep = rng.choice([1000, 70000, 1_700_000_000, 2 ** 31 - 100000, 2 ** 31 - 50, 2 ** 31 + 5,
+                     2 ** 32 - 200000, 2 ** 32 - 50, 2 ** 32 + 5, 2 ** 40])
     regime = 'integer' if fault_free else rng.choice(['integer', 'fractional'])
 
     def clk():
@@ -331,7 +338,7 @@ def execute(plan, run):
         CLOCK.latency_us = 0
         try:
             w = build_witness(step, out, keys, p)
-        except Exception as e:
+        except LIB_ERRORS as e:
             run.ev('att', i, 'witness_builder_raised', type(e).__name__)
             run.violation('witness_builder', 'C15/witness_builder_raised/%s/%s' % (
                 step['wkind'], type(e).__name__), step=i, detail={'step': step})
@@ -358,16 +365,25 @@ def execute(plan, run):
             corrupted = nm
             run.probe('corrupt_' + nm)
             run.fault('corrupt_' + nm)
-        F.flags['ts_threshold'] = step['thr']
         sf = {k: bytes.fromhex(v) for k, v in out['sigfields'].items()}
         CLOCK.latency_us = kn['latency_us']
         CLOCK.begin_call(step['validator'], step['faults'])
         try:
-            try:
-                r = F.run_auth_scripts([w, lock], {**sf, 'timestamp': step['t']})
-            except BaseException as e:      # noqa
-                run.aux_auth_raised += 1
-                r = 'raised_' + type(e).__name__
+            if step.get('via') == 'additional':
+                run.probe('threshold_per_call')
+                try:
+                    _, stk, _ = F.run_script(w.bytes + lock.bytes, {**sf, 'timestamp': step['t']},
+                                             additional_flags={'ts_threshold': step['thr']})
+                    r = stk.list() == [b'\xff']
+                except LIB_ERRORS:
+                    r = False
+            else:
+                F.flags['ts_threshold'] = step['thr']
+                try:
+                    r = F.run_auth_scripts([w, lock], {**sf, 'timestamp': step['t']})
+                except BaseException as e:      # noqa
+                    run.aux_auth_raised += 1
+                    r = 'raised_' + type(e).__name__
         finally:
             reads = CLOCK.end_call()
         obs = ACCEPT if r is True else REJECT if r is False else 'BAD:' + str(r)
